@@ -3539,8 +3539,11 @@ async def _helper_rename_folder(mbox: Mailbox, new_name: str) -> None:
     #
     to_change = {}
     async for mbox_old_name, mbox_id in srvr.db.query(
-        "SELECT name,id FROM mailboxes WHERE name=? OR name LIKE ?",
-        (old_name, f"{old_name}/%"),
+        # NOTE: Not `LIKE`: `_` and `%` in a mailbox name are ordinary
+        #       characters, not wildcards.
+        #
+        "SELECT name,id FROM mailboxes WHERE name=? OR substr(name,1,?)=?",
+        (old_name, len(old_name) + 1, f"{old_name}/"),
     ):
         mbox_new_name = new_name + mbox_old_name[len(old_name) :]
         to_change[mbox_old_name] = (mbox_new_name, mbox_id)
